@@ -183,6 +183,25 @@ func (c *Case) execOpts() (opts []z.ExecOption, restore func()) {
 		opts = append(opts, z.WithIssueFormatter(conf.NewDefaultFormatter(en.Map)))
 	case c.Fmt == "exec:es":
 		opts = append(opts, z.WithIssueFormatter(conf.NewDefaultFormatter(es.Map)))
+	case strings.HasPrefix(c.Fmt, "i18nh:"):
+		// "i18nh:<k1>,<k2>,...:<ctxkey>=<lang>,..." — a HISTORY of installations (each with WithLangKey(k), or
+		// without the option for "-"), then an execution whose context names languages under the given keys
+		old := conf.IssueFormatter
+		restore = func() { conf.IssueFormatter = old }
+		parts := strings.SplitN(c.Fmt, ":", 3)
+		for _, k := range strings.Split(parts[1], ",") {
+			if k == "-" {
+				i18n.SetLanguagesErrsMap(map[string]i18n.LangMap{"en": en.Map, "es": es.Map}, "en")
+			} else {
+				i18n.SetLanguagesErrsMap(map[string]i18n.LangMap{"en": en.Map, "es": es.Map}, "en", i18n.WithLangKey(k))
+			}
+		}
+		if len(parts) == 3 && parts[2] != "" {
+			for _, kv := range strings.Split(parts[2], ",") {
+				k, l, _ := strings.Cut(kv, "=")
+				opts = append(opts, z.WithCtxValue(k, l))
+			}
+		}
 	case strings.HasPrefix(c.Fmt, "i18n:"):
 		old := conf.IssueFormatter
 		i18n.SetLanguagesErrsMap(map[string]i18n.LangMap{"en": en.Map, "es": es.Map}, "en")
@@ -382,6 +401,23 @@ func (c *Case) Line(order map[string][]string) string {
 		items = append(items, sx.T("fmt", sx.A("exec"), sx.A("en")))
 	case c.Fmt == "exec:es":
 		items = append(items, sx.T("fmt", sx.A("exec"), sx.A("es")))
+	case strings.HasPrefix(c.Fmt, "i18nh:"):
+		parts := strings.SplitN(c.Fmt, ":", 3)
+		var hist, ctx []*sx.Node
+		for _, k := range strings.Split(parts[1], ",") {
+			if k == "-" {
+				hist = append(hist, sx.A("-"))
+			} else {
+				hist = append(hist, sx.S(k))
+			}
+		}
+		if len(parts) == 3 && parts[2] != "" {
+			for _, kv := range strings.Split(parts[2], ",") {
+				k, l, _ := strings.Cut(kv, "=")
+				ctx = append(ctx, sx.L(sx.S(k), sx.S(l)))
+			}
+		}
+		items = append(items, sx.T("fmt", sx.A("i18nh"), sx.L(hist...), sx.L(ctx...)))
 	case c.Fmt == "i18n:-":
 		items = append(items, sx.T("fmt", sx.A("i18n"), sx.A("-")))
 	case strings.HasPrefix(c.Fmt, "i18n:"):
